@@ -1,2 +1,6 @@
+import TE.Lemmas.ClassSM
 import TE.Model.Basic
 import TE.Model.ClassSM
+import TE.Model.Count
+import TE.Props.C04
+import TE.Spec.Count
